@@ -1368,6 +1368,10 @@ LEVEL_TEXT = ("Proved in Lean 4 for all three classes, all 12 scalar types, all 
               "whole histories also read back when every Array<T> is read with one stream >> Array<T> (read_back_array_op, File/Socket); >> String as a function of "
               "the bytes: the next n bytes for the int32 prefix n, 0 when negative, File clamped to what exists (string_read_spec); "
               "length-prefixed strings, NULs included, read back on File and Socket (string_read_back). "
+              "A Socket's reads do not depend on how its bytes are fragmented: the receive loop of Socket_::read(void*, int) over pending pieces (any partition into non-empty pieces, "
+              "any cut offsets) returns the first n bytes of the concatenation (socket_recv_loop_spec, socket_read_bytes_spec), a whole read history over pieces equals the history on the "
+              "concatenation (socket_read_frag_eq_flat), two partitions of one stream give the same values, order and unread bytes (socket_read_fragment_independent, socket_read_any_cuts), "
+              "and a written history delivered cut anywhere reads back the original values (socket_read_back_any_cuts); the loop and its returned variable are regenerated (gen_socket_read_returns_total). "
               "A write leaves its argument unchanged: the generic operator<<(const T&) of each class is modelled as the list of memory steps the translator finds in its body "
               "(temporary copy / swapBytes on the temporary or in place on the caller's object / write from either: Gen WStmt, sbPath, filePath, sockPath; obligation gen_writer_paths), "
               "Array<T> hands every element itself (a reference) to it in the item-by-item branch; scalar_write_mem and array_write_mem show, for every class, type, order, length and content, "
